@@ -733,10 +733,17 @@ static std::string runOne(int cap, const std::vector<ThreadProg> &prog, const vf
 static vf::Options parsePolicy(const std::vector<std::string> &w)
 {
   vf::Options o;
-  if (!w.empty() && w[0] == "random")
+  if (!w.empty() && (w[0] == "random" || w[0] == "randomt"))
   {
     o.policy = vf::Policy::Random;
     o.seed = w.size() > 1 ? strtoull(w[1].c_str(), nullptr, 10) : 1;
+    if (w[0] == "randomt")
+    {
+      // the polling script thread and spinning waiters are "low priority" (a yield is a sleep with back-off): let them run
+      // early now and then, so that e.g. the I/O thread delivers data in the middle of another thread's teardown
+      o.timeoutsOnlyWhenIdle = false;
+      o.timeoutPermille = 150;
+    }
   }
   else if (!w.empty())
   {
